@@ -8,10 +8,12 @@ from checks._view import run_view_check, replay  # noqa: F401
 
 
 def want(case, sig):
-    return sig.startswith("cursor/")
+    # single cursor calls, and whole-message cursor traversals (visit_children /
+    # cursor_range / cursor_subrange walks: positions at every callback, end)
+    return sig.startswith("cursor") or sig.startswith("visit/")
 
 
 def run(v, tier, seed):
-    return run_view_check(v, tier, seed, want, [viewpipe.cursor_results],
+    return run_view_check(v, tier, seed, want, [viewpipe.cursor_results, viewpipe.visit_results],
                           "one vector per cursor-accessor transition: (level instance, cursor position in {required position, +1, member start/end, level start/end, unset}, member, wrapper, get|set) on images incl. inflated block lengths",
                           "Cursor.tla (legality + landing table of DESIGN.md Appendix A) model-checked (TableLaws, LevelWalk) and every transition replayed: returned value/view, cursor position, buffer, and that illegal calls reach the assertion handler")
